@@ -259,6 +259,14 @@ def _run(ctx):
                           "skip or repeat" % (g_, sorted(gen_users.get(g_, [])), sorted(users)))
     check_generator(rep, prog, "TX-3")
 
+    # ---------------- TX-11 / TX-12
+    rep.rule("TX-11", "the header every self-originated message starts from takes sdoId and domainNumber from defaultDS, the "
+                      "port identity and the sequence number from its arguments", floor=4)
+    check_base_header(rep, prog, "TX-11")
+    rep.rule("TX-12", "the size a forwarded TLV is accounted with is its WIRE size (header + value): it is the one number the "
+                      "provider's fit test, the room accounting and the assertion all use - shared with C15 TLV-12", floor=1)
+    check_forwarded_size(rep, prog, "TX-12")
+
     # ---------------- TX-9 / TX-10
     rep.rule("TX-9", "a sequence generator is only ever advanced by generate(): no other assignment to a *_seq_ids field "
                      "(a generator that is reset when the port re-enters a state repeats sequence numbers)", floor=1)
@@ -344,3 +352,41 @@ def check_generator(rep, prog, rid):
     except AnchorMissing as e:
         rep.anchor_missing(rid, str(e))
 
+
+def check_base_header(rep, prog, rid):
+    want = {"sdo_id": "arg1.sdo_id", "domain_number": "arg1.domain_number", "source_port_identity": "arg2",
+            "sequence_id": "arg3"}
+    try:
+        b = prog.one(name="base_header", crate="statime-lib")
+    except AnchorMissing as e:
+        rep.anchor_missing(rid, str(e))
+        return
+    out = {}
+    flat("", df.Prov(b).local_tree(0), out)
+    for f, w in want.items():
+        t = out.get(f)
+        if t is None and f + ".0" in out:
+            t = out[f + ".0"]
+        got = df.canon_pos(t, b) if t is not None else None
+        if got == w:
+            rep.ok(rid, b.key, "base_header.%s" % f, detail=got, where=b.loc())
+        else:
+            rep.violation(rid, b.key, "base_header.%s" % f,
+                          "the %s of every self-originated message is `%s`, prescribed `%s` (defaultDS / the caller's "
+                          "argument): emitted frames would not bear the instance's own %s" % (f, got, w, f), where=b.loc())
+
+
+def check_forwarded_size(rep, prog, rid):
+    try:
+        b = prog.one(name="size", self_name="ForwardedTLV", crate="statime-lib")
+    except AnchorMissing as e:
+        rep.anchor_missing(rid, str(e))
+        return
+    got = df.canon(df.Prov(b).local_tree(0), b)
+    if got == "wire_size(self.tlv)":
+        rep.ok(rid, b.key, "size() = wire size", detail=got, where=b.loc())
+    else:
+        rep.violation(rid, b.key, "size() = wire size",
+                      "ForwardedTLV::size() returns `%s`, not the TLV's wire size: every forwarded TLV is accounted %s, so a "
+                      "suffix that 'fits' can exceed the frame" % (got, "short by its 4-octet header" if "value" in got else "wrongly"),
+                      where=b.loc())
